@@ -1,6 +1,7 @@
 package world
 
 import (
+	"time"
 	"errors"
 	"fmt"
 
@@ -229,6 +230,12 @@ func (n *Node) served(chain string, h uint32) {
 		n.LastHeight = map[string]uint32{}
 	}
 	n.LastHeight[chain] = h
+	if l := n.servedLog[chain]; len(l) == 0 || l[len(l)-1].h != h {
+		if n.servedLog == nil {
+			n.servedLog = map[string][]servedAt{}
+		}
+		n.servedLog[chain] = append(n.servedLog[chain], servedAt{n.w.Sim.Now(), h})
+	}
 	if t := rt.Self(); t != nil {
 		if n.heightByTask == nil {
 			n.heightByTask = map[string]uint32{}
@@ -326,3 +333,26 @@ func (e *estimatorStub) EstimateFeePerKW(targetBlocks uint32) (btcutil.Amount, e
 }
 
 func (e *estimatorStub) Start() error { return nil }
+
+type servedAt struct {
+	at time.Duration
+	h  uint32
+}
+
+// ServedHeightBefore: the highest height of chain the node's back-end had told it
+// (answers to its queries, headers pushed to its subscription) by time t.
+func (n *Node) ServedHeightBefore(chain string, t time.Duration) (uint32, bool) {
+	n.mu.Lock()
+	defer n.mu.Unlock()
+	var best uint32
+	ok := false
+	for _, s := range n.servedLog[chain] {
+		if s.at <= t {
+			if s.h > best {
+				best = s.h
+			}
+			ok = true
+		}
+	}
+	return best, ok
+}
